@@ -19,10 +19,18 @@ func init() { register("C10", checkC10) }
 // it ends up holding (for the library's own env, whose map is private).
 type c10Entry struct{ K, V string }
 
+// c10StatelessEnv is a caller environment whose own value is all zero bits; what it knows lives in c10Store.
+type c10StatelessEnv struct{}
+
+var c10Store *refmodel.Env
+
+func (c10StatelessEnv) Get(k string) (string, bool) { return c10Store.Get(k) }
+func (c10StatelessEnv) Set(k, v string)             { c10Store.Set(k, v) }
+
 func checkC10(c *run.Ctx) {
 	n := c.N(100000, 30000000)
 	names := []string{"A", "B", "C", "D", "E", "PATH", "Path", "path", "a", "b", "HOME", "X_1", "Y"}
-	c.Parallel("block", n, func(i int, r *rand.Rand) {
+	body := func(i int, r *rand.Rand, stateless bool) {
 		nent := r.IntN(9)
 		if r.IntN(10) == 0 {
 			nent = 10 + r.IntN(30)
@@ -147,10 +155,17 @@ func checkC10(c *run.Ctx) {
 		case 0, 1:
 			hEnv = refmodel.NewEnv(ci, rt)
 			renv = hEnv
+			if stateless {
+				c10Store = hEnv
+				renv = c10StatelessEnv{}
+			}
 		case 2, 3:
 			renv = pipeline.VerifNewEnv(!ci, rt)
 		}
 		id := run.CaseID("block", i)
+		if stateless {
+			id = run.CaseID("stateless", i)
+		}
 		detail := func(what string) map[string]any {
 			return map[string]any{"what": what, "entries": entries, "runtime_env": rt, "prefer_runtime": prefer, "env_kind": []string{"harness-case-sensitive", "harness-case-insensitive", "library-case-sensitive", "library-case-insensitive", "nil"}[envKind], "probe": probe}
 		}
@@ -254,6 +269,19 @@ func checkC10(c *run.Ctx) {
 		}
 		if c.WantSample() && len(entries) > 2 {
 			c.Sample(map[string]any{"entries": entries, "runtime_env": rt, "prefer_runtime": prefer, "block_after": got, "probe_after": step.Command})
+		}
+	}
+	c.Parallel("block", n, func(i int, r *rand.Rand) { body(i, r, false) })
+	// The caller's environment may be any implementation of the interface, also one whose value is all zero bits (a
+	// stateless struct in front of process-wide storage): run sequentially, the storage being a package-level variable.
+	c.Phase("stateless-env", func() {
+		for i := 0; i < c.N(4000, 100000); i++ {
+			if c.Only != "" && c.Only != run.CaseID("stateless", 5*i+(i%2)) {
+				continue
+			}
+			r := c.RNG("stateless", i)
+			body(5*i+(i%2), r, true) // env kinds 0 and 1 (the harness's own env, case-sensitive and not)
+			c.Count("cases_with_a_zero_valued_caller_environment", 1)
 		}
 	})
 	c.Finish("exploration",
